@@ -200,6 +200,11 @@ def shard_worker(args):
     modname, shard, seed, n, tier = args
     import importlib
     t0 = time.time()
+    try:    # die with the parent (PR_SET_PDEATHSIG) so that a killed check leaves no spinning workers behind
+        import ctypes, signal
+        ctypes.CDLL("libc.so.6").prctl(1, signal.SIGKILL)
+    except Exception:
+        pass
     try:
         module = importlib.import_module(modname)
         out = None
